@@ -20,7 +20,7 @@ Same(o, r) == o.k = r.k /\ o = r
 \* the statement fixes NameError/AttributeError for reads only: a failing delete may raise anything (or nothing)
 ResultOk(op, o, r) == IF op.k \in {"del", "delete", "delattr", "deleteattr"} /\ r.k = "exc" THEN o.k \in {"exc", "none"}
                       ELSE Same(o, r)
-ResolutionOf(w, op) == IF op.k \in {"names", "checksnap", "bindvar", "unbindvar"} THEN "-"
+ResolutionOf(w, op) == IF op.k \in {"names", "checksnap", "snapfield", "bindvar", "unbindvar"} THEN "-"
                        ELSE IF op.k \in {"localread", "localassign", "localdel"} THEN "local" ELSE Resolve(w, op.e)
 
 RECURSIVE Run(_, _, _)
@@ -28,10 +28,12 @@ Run(c, w, i) ==
   IF i > Len(c.ops) THEN [ok |-> TRUE, at |-> 0, why |-> "", k |-> "", res |-> ""]
   ELSE LET op == c.ops[i] IN
        IF ~Specified(w, op) THEN [ok |-> FALSE, at |-> i, why |-> "unspecified-op-generated", k |-> op.k, res |-> ResolutionOf(w, op)]
-       ELSE LET r == Apply(w, op, i) IN
-            IF ~ResultOk(op, ObsNorm(op.obs), r.r) THEN [ok |-> FALSE, at |-> i, why |-> "result", k |-> op.k, res |-> ResolutionOf(w, op)]
-            ELSE IF HassNorm(op.hass) # r.w.h THEN [ok |-> FALSE, at |-> i, why |-> "hass", k |-> op.k, res |-> ResolutionOf(w, op)]
-            ELSE Run(c, r.w, i + 1)
+       ELSE LET outs == Outcomes(w, op, i)
+                good == { r \in outs : ResultOk(op, ObsNorm(op.obs), r.r) }
+                fits == { r \in good : HassNorm(op.hass) = r.w.h }
+            IN IF good = {} THEN [ok |-> FALSE, at |-> i, why |-> "result", k |-> op.k, res |-> ResolutionOf(w, op)]
+               ELSE IF fits = {} THEN [ok |-> FALSE, at |-> i, why |-> "hass", k |-> op.k, res |-> ResolutionOf(w, op)]
+               ELSE Run(c, (CHOOSE r \in fits : TRUE).w, i + 1)
 
 World0(c) == [h |-> HassNorm(c.init), snap |-> NoSnap, py |-> [d \in AllDom |-> Unbound], svc |-> {}]
 
